@@ -1,5 +1,6 @@
 //! E2 — surface engine: independent scanner, front-end wrappers, corpus, mutators, grammar-directed generator.
 pub mod grammar;
+pub mod hostile;
 pub mod mutate;
 pub mod scan;
 
